@@ -272,6 +272,14 @@ func (c vfC18Caps) position(coding string, raw, decoded int64) string {
 // decoded-size cap is involved.
 func (c vfC18Caps) classFor(capNames string) string {
 	if !strings.Contains(capNames, "decoded") {
+		switch {
+		case c.A > 0 && c.B > 0 && c.A == c.B:
+			return "request-cap=body-cap"
+		case c.A > 0 && c.B > 0 && c.A < c.B:
+			return "request-cap<body-cap"
+		case c.A > 0 && c.B > 0:
+			return "request-cap>body-cap"
+		}
 		return "any-caps"
 	}
 	return c.classAM()
@@ -323,7 +331,12 @@ func vfC18Expect(c vfC18Caps, coding string, raw, decoded, window int64) vfC18Wa
 	if c.A > 0 && raw > c.A {
 		w.must[413] = "raw>max_request_bytes"
 	}
-	if c.B > 0 && raw > c.B {
+	// The body cap answers 400 only when it is strictly tighter than the
+	// advertised cap (or the advertised cap is not exceeded). When the advertised
+	// cap is the tighter one, or the two are EQUAL, the advertised cap is (one of)
+	// the cap(s) the body hits first, and "413 for the advertised request cap"
+	// applies — a client can only react to the limit it was told about.
+	if c.B > 0 && raw > c.B && !(c.A > 0 && raw > c.A && c.A <= c.B) {
 		w.must[400] = "raw>max_body_size"
 	}
 	d := c.decodedCap()
@@ -791,6 +804,76 @@ func TestVerif_C18(t *testing.T) {
 		enc := encs[x.Choose(len(encs), "encoding")]
 		caps := smallCaps[x.Choose(len(smallCaps), "caps")]
 		vfC18Run(x, caps, dels[0], desc, enc, true)
+	})
+
+	// ---- space 2b: removing a cap never turns an accepted body into a refused one --------
+	// Acceptance is "raw and decoded sizes are within the configured caps", whatever
+	// the reading of which cap bounds which size; so the accepted set can only grow
+	// when one cap is removed (body cap -> 0, request cap -> 0, decoded cap -> -1).
+	// Each execution serves the same body under a configuration and under one of
+	// its one-step relaxations, on two fresh servers.
+	monoDescs := vfC18Descs([]int{vfC18N / 2, vfC18N, vfC18M, 2 * vfC18N}, 4*vfC18N)
+	monoEncs := []vfC18Enc{encs[0], encs[2], encs[4], encs[6]} // identity, zstd one-shot, zstd stream, gzip
+	relaxations := []struct {
+		name string
+		f    func(c vfC18Caps) (vfC18Caps, bool)
+	}{
+		{"body-cap-removed", func(c vfC18Caps) (vfC18Caps, bool) { ok := c.B > 0; c.B = 0; return c, ok }},
+		{"request-cap-removed", func(c vfC18Caps) (vfC18Caps, bool) { ok := c.A > 0; c.A = 0; return c, ok }},
+		{"decoded-cap-disabled", func(c vfC18Caps) (vfC18Caps, bool) { ok := c.M >= 0; c.M = -1; return c, ok }},
+	}
+	serve := func(caps vfC18Caps, raw []byte, header string, declared bool) (bool, int) {
+		h := vfC18NewServer()
+		caps.apply(h)
+		body, err := h.readHTTPBody(vfC18Request("/echo", raw, header, declared))
+		if err == nil {
+			_ = body
+			return true, 0
+		}
+		rec := httptest.NewRecorder()
+		h.writeBodyReadError(rec, err, nil)
+		return false, rec.Code
+	}
+	venum.Explore(t, venum.Cfg{Name: "cap-monotonicity", Shardable: true}, func(x *venum.X) {
+		desc := monoDescs[x.Choose(len(monoDescs), "payload")]
+		enc := monoEncs[x.Choose(len(monoEncs), "encoding")]
+		caps := capsList[x.Choose(len(capsList), "caps")]
+		rel := relaxations[x.Choose(len(relaxations), "relaxation")]
+		declared := !x.Bool("chunked")
+		looser, applicable := rel.f(caps)
+		if !applicable {
+			x.Outcome("relaxation-not-applicable")
+			return
+		}
+		key := vfC18Key{"direct", desc.name, enc.name}
+		built, ok := vfC18Cache[key]
+		if !ok {
+			built = vfC18Build(dels[0], desc, enc, [2]string{})
+			vfC18Cache[key] = built
+		}
+		if !built.ok {
+			x.Outcome("not-constructible")
+			return
+		}
+		acc1, st1 := serve(caps, built.raw, enc.header, declared)
+		acc2, st2 := serve(looser, built.raw, enc.header, declared)
+		if acc1 && !acc2 {
+			rel2 := "request-cap-unset"
+			switch {
+			case caps.A > 0 && caps.B > 0 && caps.A == caps.B:
+				rel2 = "request-cap=body-cap"
+			case caps.A > 0 && caps.B > 0 && caps.A < caps.B:
+				rel2 = "request-cap<body-cap"
+			case caps.A > 0 && caps.B > 0:
+				rel2 = "request-cap>body-cap"
+			case caps.A > 0:
+				rel2 = "body-cap-unset"
+			}
+			x.Failf(fmt.Sprintf("C18:not-monotone:%s:%s:refused-%d-after:%s", rel2, enc.coding, st2, rel.name),
+				"%s body raw=%d decoded=%d is accepted under caps %+v but refused (%d) under the looser caps %+v (%s): one of the two answers contradicts the caps, whatever reading is taken",
+				enc.name, len(built.raw), len(built.decoded), caps, st2, looser, rel.name)
+		}
+		x.Outcome("%v/%d -> %v/%d", acc1, st1, acc2, st2)
 	})
 
 	// ---- space 3: the intermediary decoder -----------------------------------------
